@@ -165,7 +165,7 @@ fn fuzz_plan(id: &str) -> Vec<xv::fuzzdrv::FuzzPlan> {
     let p = |target, runs: u64, max_len| FuzzPlan { target, runs: (runs * scale / 100).max(1000), max_len, jobs: 8 };
     match id {
         "C04" => vec![p("chunker_diff", 1_500_000, 40_000)],
-        "C06" => vec![p("hash_text", 10_000_000, 1_024), p("merkle_tree", 150_000, 4_096)],
+        "C06" => vec![p("hash_text", 10_000_000, 1_024), p("merkle_tree", 120_000, 2_048)],
         "C07" => vec![p("xorb_roundtrip", 250_000, 40_000)],
         "C08" => vec![p("xorb_validate", 250_000, 150_000)],
         "C09" => vec![p("sorted_search", 120_000, 1_024)],
